@@ -34,6 +34,9 @@ class Instance:
         return {"rule": self.rule, "key": self.key, "where": self.where, "verdict": self.verdict, "detail": self.detail}
 
 
+_ACTIVE_INCLUDES = set()
+
+
 class Ctx:
     """what a rule module sees"""
 
@@ -70,6 +73,37 @@ class Ctx:
                      "moved out of the rule's sight; cannot decide" % (count, what, minimum))
         else:
             self.ok(rule, "floor:%s" % what, "", "%d >= %d" % (count, minimum))
+
+    def include(self, other_prop, rules=None, why=""):
+        """clauses this property shares with another one: run that property's rules here and report them under this property
+        (rule `via-Cxx.Rn`).  Known findings of the other property stay the other property's."""
+        import importlib
+        if other_prop in _ACTIVE_INCLUDES or other_prop == self.prop:
+            return            # already being evaluated further up: no rule is its own side condition
+        mod = importlib.import_module("sa.rules." + other_prop.lower())
+        sub = Ctx(other_prop, self.P, self.tier, self.config)
+        sub.P_view = getattr(self, "P_view", self.P)
+        _ACTIVE_INCLUDES.add(other_prop)
+        added_self = self.prop not in _ACTIVE_INCLUDES
+        _ACTIVE_INCLUDES.add(self.prop)
+        try:
+            mod.run(sub)
+        except Exception as e:
+            self.bad("via-%s" % other_prop, "exception", "", "included rules crashed: %s" % e)
+            return
+        finally:
+            _ACTIVE_INCLUDES.discard(other_prop)
+            if added_self:
+                _ACTIVE_INCLUDES.discard(self.prop)
+        findings, _ = load_known()
+        for i in sub.instances:
+            rn = i.rule.split(".", 1)[1]
+            if rules is not None and rn not in rules:
+                continue
+            if i.verdict == "violation" and (other_prop, i.key.split("@")[0]) in findings:
+                continue
+            self._add("via-%s.%s" % (other_prop, rn), i.key.split(":", 1)[1], i.where, i.verdict, i.detail)
+        self.functions |= sub.functions
 
     def saw(self, body):
         self.functions.add(body.id if hasattr(body, "id") else body)
